@@ -630,91 +630,117 @@ func DischargeAll(results []*FuncResult, want func(*Obligation) bool, opt Discha
 	if opt.Workers <= 0 {
 		opt.Workers = 16
 	}
-	var wg sync.WaitGroup
-	ch := make(chan job)
-	for w := 0; w < opt.Workers; w++ {
-		wg.Add(1)
-		go func() {
-			defer wg.Done()
-			for j := range ch {
-				opt := opt
-				if opt.Short != nil && opt.Short(j.o) && opt.TimeoutS > 5 {
-					opt.TimeoutS = 5
-				}
-				fname := fmt.Sprintf("%04d_%s.smt2", j.i, safeFile(j.o.Name))
-				path := filepath.Join(opt.WorkDir, fname)
-				_ = os.MkdirAll(opt.WorkDir, 0o755)
-				// stage A: without quantified assumptions (decidable fragment, fast, models are meaningful)
-				qfText := j.r.SMTx(j.o, false, true)
-				fullText := j.r.SMT(j.o, false)
-				if j.o.QFCover {
-					fullText = qfText
-				}
-				var best SolverResult
-				var qfRes *SolverResult
-				usedQF := false
-				if qfText != fullText && !j.o.ExpectSat {
-					qp := strings.TrimSuffix(path, ".smt2") + ".qf.smt2"
-					_ = os.WriteFile(qp, []byte(qfText), 0o644)
-					a, _ := Discharge(qp, "quick", opt.TimeoutS)
-					if a.Status == "unsat" && opt.Tier != "thorough" {
-						best = a
-						best.Solver += "(qf)"
-						usedQF = true
-					} else {
-						qfRes = &a
+	process := func(jobs []job, workers int, opt DischargeOpts) {
+		var wg sync.WaitGroup
+		ch := make(chan job)
+		for w := 0; w < workers; w++ {
+			wg.Add(1)
+			go func() {
+				defer wg.Done()
+				for j := range ch {
+					opt := opt
+					if opt.Short != nil && opt.Short(j.o) && opt.TimeoutS > 5 {
+						opt.TimeoutS = 5
 					}
-					if !opt.Keep {
-						os.Remove(qp)
+					fname := fmt.Sprintf("%04d_%s.smt2", j.i, safeFile(j.o.Name))
+					path := filepath.Join(opt.WorkDir, fname)
+					_ = os.MkdirAll(opt.WorkDir, 0o755)
+					// stage A: without quantified assumptions (decidable fragment, fast, models are meaningful)
+					qfText := j.r.SMTx(j.o, false, true)
+					fullText := j.r.SMT(j.o, false)
+					if j.o.QFCover {
+						fullText = qfText
 					}
-				}
-				if !usedQF {
-					_ = os.WriteFile(path, []byte(fullText), 0o644)
-					best, _ = Discharge(path, opt.Tier, opt.TimeoutS)
-				}
-				j.o.Result = &best
-				j.o.SMTFile = path
-				failed := (best.Status != "unsat" && !j.o.ExpectSat) || (j.o.ExpectSat && best.Status != "sat")
-				if failed && best.Status != "sat" && qfRes != nil && qfRes.Status == "sat" {
-					// candidate counterexample from the quantifier-free relaxation
-					mp := strings.TrimSuffix(path, ".smt2") + ".qfmodel.smt2"
-					_ = os.WriteFile(mp, []byte(j.r.SMTx(j.o, true, true)), 0o644)
-					for _, sp := range solvers {
-						if sp.name == qfRes.Solver {
-							m := runSolver(bgctx(), sp, mp, opt.TimeoutS)
-							j.o.Result.Output = "status " + best.Status + " with all assumptions; candidate model from the quantifier-free relaxation:\n" + m.Output
-							j.o.CandidateModel = true
+					var best SolverResult
+					var qfRes *SolverResult
+					usedQF := false
+					if qfText != fullText && !j.o.ExpectSat {
+						qp := strings.TrimSuffix(path, ".smt2") + ".qf.smt2"
+						_ = os.WriteFile(qp, []byte(qfText), 0o644)
+						a, _ := Discharge(qp, "quick", opt.TimeoutS)
+						if a.Status == "unsat" && opt.Tier != "thorough" {
+							best = a
+							best.Solver += "(qf)"
+							usedQF = true
+						} else {
+							qfRes = &a
+						}
+						if !opt.Keep {
+							os.Remove(qp)
 						}
 					}
-					if !opt.Keep {
-						os.Remove(mp)
+					if !usedQF {
+						_ = os.WriteFile(path, []byte(fullText), 0o644)
+						best, _ = Discharge(path, opt.Tier, opt.TimeoutS)
 					}
-				}
-				if failed && best.Status == "sat" {
-					// rerun for a model
-					mp := strings.TrimSuffix(path, ".smt2") + ".model.smt2"
-					_ = os.WriteFile(mp, []byte(j.r.SMT(j.o, true)), 0o644)
-					for _, sp := range solvers {
-						if sp.name == best.Solver {
-							m := runSolver(bgctx(), sp, mp, opt.TimeoutS)
-							j.o.Result.Output = m.Output
+					j.o.Result = &best
+					j.o.SMTFile = path
+					failed := (best.Status != "unsat" && !j.o.ExpectSat) || (j.o.ExpectSat && best.Status != "sat")
+					if failed && best.Status != "sat" && qfRes != nil && qfRes.Status == "sat" {
+						// candidate counterexample from the quantifier-free relaxation
+						mp := strings.TrimSuffix(path, ".smt2") + ".qfmodel.smt2"
+						_ = os.WriteFile(mp, []byte(j.r.SMTx(j.o, true, true)), 0o644)
+						for _, sp := range solvers {
+							if sp.name == qfRes.Solver {
+								m := runSolver(bgctx(), sp, mp, opt.TimeoutS)
+								j.o.Result.Output = "status " + best.Status + " with all assumptions; candidate model from the quantifier-free relaxation:\n" + m.Output
+								j.o.CandidateModel = true
+							}
+						}
+						if !opt.Keep {
+							os.Remove(mp)
 						}
 					}
-					if !opt.Keep {
-						os.Remove(mp)
+					if failed && best.Status == "sat" {
+						// rerun for a model
+						mp := strings.TrimSuffix(path, ".smt2") + ".model.smt2"
+						_ = os.WriteFile(mp, []byte(j.r.SMT(j.o, true)), 0o644)
+						for _, sp := range solvers {
+							if sp.name == best.Solver {
+								m := runSolver(bgctx(), sp, mp, opt.TimeoutS)
+								j.o.Result.Output = m.Output
+							}
+						}
+						if !opt.Keep {
+							os.Remove(mp)
+						}
+					}
+					if !failed && !opt.Keep {
+						os.Remove(path)
 					}
 				}
-				if !failed && !opt.Keep {
-					os.Remove(path)
+			}()
+		}
+		for _, j := range jobs {
+			ch <- j
+		}
+		close(ch)
+		wg.Wait()
+	}
+	process(jobs, opt.Workers, opt)
+	// second chance for obligations no solver decided (time-out or "unknown", typically on a loaded machine):
+	// once more, a few at a time, with twice the time. Obligations a solver refuted are not retried.
+	if !opt.onlyHeads {
+		var again []job
+		for _, j := range jobs {
+			if j.o.Result == nil || (opt.Short != nil && opt.Short(j.o)) {
+				continue
+			}
+			if st := j.o.Result.Status; st != "sat" && st != "unsat" {
+				again = append(again, j)
+			}
+		}
+		if len(again) > 0 && len(again) <= 12 {
+			o2 := opt
+			o2.TimeoutS = opt.TimeoutS * 2
+			process(again, 4, o2)
+			for _, j := range again {
+				if j.o.Result != nil {
+					j.o.Result.Solver += " (2nd attempt)"
 				}
 			}
-		}()
+		}
 	}
-	for _, j := range jobs {
-		ch <- j
-	}
-	close(ch)
-	wg.Wait()
 }
 
 // Failed reports whether obligation o is not established.
